@@ -78,7 +78,44 @@ def mutants_of2(path, src):
     return out
 
 
+def mutants_of3(path, src):
+    """Third family, on whole `if` statements: the condition negated (`if !(c) {`), the whole statement deleted when it
+    has no else (the classic missing check), an else branch deleted."""
+    out = []
+    lines = src.split("\n")
+    for i, line in enumerate(lines):
+        m = re.match(r"^(\s*)(\} else )?if (.*) \{\s*$", line)
+        if not m:
+            continue
+        indent, els, cond = m.group(1), m.group(2) or "", m.group(3)
+        if ";" in cond:
+            init, c = cond.rsplit(";", 1)
+            neg = init + "; !(" + c.strip() + ")"
+        else:
+            neg = "!(" + cond + ")"
+        out.append((path, i, "%s%sif %s {" % (indent, els, neg), "negate if"))
+        if els:
+            continue
+        # the end of the statement: the first line at the same indentation that starts with `}`
+        j = i + 1
+        while j < len(lines) and not (lines[j].startswith(indent + "}") and not lines[j].startswith(indent + "\t")):
+            j += 1
+        if j >= len(lines):
+            continue
+        if lines[j].strip() == "}":
+            out.append((path, (i, j), None, "delete if statement"))
+        elif re.match(r"^\s*\} else \{\s*$", lines[j]):
+            k = j + 1
+            while k < len(lines) and not (lines[k].startswith(indent + "}") and not lines[k].startswith(indent + "\t")):
+                k += 1
+            if k < len(lines) and lines[k].strip() == "}":
+                out.append((path, (j, k), "ELSE", "delete else branch"))
+    return out
+
+
 def mutants_of(path, src):
+    if OPS == 3:
+        return mutants_of3(path, src)
     if OPS == 2:
         return mutants_of2(path, src)
     out = []
@@ -148,8 +185,19 @@ def worker(q, results, lock):
             full = os.path.join(d, path)
             src = open(full).read()
             lines = src.split("\n")
-            old = lines[i]
-            lines[i] = newline
+            if isinstance(i, tuple):
+                a, b = i
+                old = lines[a]
+                if newline == "ELSE":
+                    # `} else {` ... `}`  ->  `}`
+                    lines[a:b + 1] = [lines[b]]
+                else:
+                    lines[a:b + 1] = [re.match(r"^\s*", lines[a]).group(0) + "// (deleted)"]
+                newline = "(lines %d-%d deleted)" % (a + 1, b + 1)
+                i = a
+            else:
+                old = lines[i]
+                lines[i] = newline
             open(full, "w").write("\n".join(lines))
             res = dict(file=path, line=i + 1, op=op, old=old.strip(), new=newline.strip())
             try:
